@@ -50,6 +50,44 @@ for _c in REGRESSIONS:
     if 'map' in _c:
         _c.update(map_fmt='rzxplay', map_kind='witness', map_seed=0)
 
+# Directed deterministic cases (mutation sweep): boundary situations the random stream reaches too rarely.
+#  - an RST 8 whose argument byte is the last byte before END (-r): the 'B' sub-block must be written, otherwise
+#    sna2skool decodes the argument as code that straddles END;
+#  - a step-(5) join (JR/JP into the adjacent block) whose second block ends at END / is one byte long;
+#  - text detected inside a code block that runs up to the end of the block (END, or a following block);
+#  - code maps in every text format holding the addresses 0 and 65535.
+DIRECTED = [
+    {'kind': 'dir-rst-arg-at-end', 'org': 32768, 'data': [0, 0xCF, 0x21, 0xC9, 0, 0, 0], 'start': None, 'end': 32771, 'opts': ['-r'], 'ini': {},
+     'map': [32768, 32769]},
+    {'kind': 'dir-rst-arg-at-end', 'org': 32768, 'data': [0, 0xCF, 0x3E], 'start': None, 'end': None, 'opts': ['-r', '-C'], 'ini': {},
+     'map': [32768, 32769]},
+    {'kind': 'dir-rst-arg-at-end', 'org': 32768, 'data': [0xCF, 0xC3, 0xC9, 0xCF, 0x01, 0x02, 0x03], 'start': None, 'end': 32773, 'opts': ['-r'], 'ini': {},
+     'map': [32768, 32770, 32771]},
+    {'kind': 'dir-rst-arg-before-block', 'org': 32768, 'data': [0xCF, 0x21, 0xC9, 0xCF, 0x21, 0x3C, 0xC9, 7, 7, 7], 'start': None, 'end': None,
+     'opts': ['-r'], 'ini': {}, 'map': [32768, 32770, 32771, 32773, 32774]},
+    {'kind': 'dir-join-at-end', 'org': 32768, 'data': [0x18, 0x00, 0xC9, 1, 2, 3], 'start': None, 'end': 32771, 'opts': [], 'ini': {},
+     'map': [32768, 32770]},
+    {'kind': 'dir-join-at-end', 'org': 32768, 'data': [0x18, 0x00, 0xC9, 0xC9, 1, 2, 3], 'start': None, 'end': None, 'opts': [], 'ini': {},
+     'map': [32768, 32770, 32771]},
+    {'kind': 'dir-join-at-end', 'org': 65533, 'data': [0x18, 0x00, 0xC9], 'start': None, 'end': None, 'opts': [], 'ini': {}, 'map': [65533, 65535]},
+    {'kind': 'dir-text-at-code-end', 'org': 32768, 'data': [0x3E, 0x41, 0xC3, 0x41, 0x42, 7, 7], 'start': None, 'end': 32773, 'opts': [],
+     'ini': {'TextMinLengthCode': 2}},
+    {'kind': 'dir-text-at-code-end', 'org': 32768, 'data': [0x3E, 0x41, 0xC3, 0x41, 0x42, 0, 0, 0, 0x3C, 0xC9], 'start': None, 'end': None, 'opts': [],
+     'ini': {'TextMinLengthCode': 2}},
+    {'kind': 'dir-text-at-code-end', 'org': 65531, 'data': [0x3E, 0x41, 0xC3, 0x41, 0x42], 'start': None, 'end': None, 'opts': [],
+     'ini': {'TextMinLengthCode': 1}},
+    {'kind': 'dir-text-at-data-end', 'org': 32768, 'data': [1, 0x48, 0x49, 0x21, 0xC9, 0x48, 0x49, 0x21], 'start': None, 'end': None, 'opts': [],
+     'ini': {'TextMinLengthData': 3}, 'map': [32772]},
+]
+for _c in DIRECTED:
+    if 'map' in _c:
+        _c.update(map_fmt='rzxplay', map_kind='witness', map_seed=0)
+for _fmt in E.MAP_FORMATS:
+    DIRECTED.append({'kind': 'dir-map-address-0', 'org': 0, 'data': [0, 0x3C, 0xC9, 7, 7], 'start': None, 'end': None, 'opts': [], 'ini': {},
+                     'map': [0, 1, 2], 'map_fmt': _fmt, 'map_kind': 'witness', 'map_seed': 0})
+    DIRECTED.append({'kind': 'dir-map-address-65535', 'org': 65531, 'data': [7, 7, 0, 0x3C, 0xC9], 'start': None, 'end': None, 'opts': [], 'ini': {},
+                     'map': [65533, 65534, 65535], 'map_fmt': _fmt, 'map_kind': 'witness', 'map_seed': 0})
+
 
 # ---------------------------------------------------------------- tables from the real decoders
 
@@ -175,7 +213,7 @@ def correspondence(chk, mods):
 
     # the inputs of the repaired defects and of the known findings first (deterministic), then generated regions
     fixed = []
-    for c in [WITNESS_F, WITNESS_J, WITNESS_M] + REGRESSIONS:
+    for c in [WITNESS_F, WITNESS_J, WITNESS_M] + REGRESSIONS + [d for d in DIRECTED if d.get('map_fmt', 'rzxplay') == 'rzxplay']:
         mem = [0] * 65536
         mem[c['org']:c['org'] + len(c['data'])] = c['data']
         st, en = E.effective_range(c)
@@ -328,6 +366,8 @@ def e2e(chk, mods):
         evaluate(chk, mods, c)
     for fmt in E.MAP_FORMATS:
         evaluate(chk, mods, dict(REGRESSIONS[5], kind='fmt-' + fmt, map_fmt=fmt))
+    for c in DIRECTED:
+        evaluate(chk, mods, c)
     for c in E.sweep_cases(16 if not chk.thorough else 4):
         evaluate(chk, mods, c)
     if chk.thorough:
@@ -345,7 +385,10 @@ def run(chk):
                 '65536-len, ...); ranges -s/-e inside the file with END biased to fall inside a multi-byte instruction; code maps '
                 'in all 8 accepted encodings built from real skoolkit.simulator traces (and trace.py --map), arbitrary address sets '
                 'and dense runs; options -C, -r, -h/-l, TextChars, TextMinLengthCode/Data, Dictionary. non-trivial = more than two '
-                'block directives (distinct by directive string + range). Correspondence: same images, tables from the real decoders.')
+                'block directives (distinct by directive string + range). Directed deterministic groups: repaired-defect inputs, '
+                'opcode sweep, boundary cases (RST 8 argument as the last byte before END / before a block, step-(5) join ending at '
+                'END, text running to the end of a code block, maps in all 8 formats holding addresses 0 and 65535). '
+                'Correspondence: same images, tables from the real decoders.')
     chk.trusted += ['hand model lean/SkoolVerif/Model/SnaCtl.lean tied by correspondence (harness/props/c14.py) to '
                     '_generate_ctls_without_code_map, _generate_ctls_with_code_map, _find_terminal_instruction, read_map, _get_text_blocks',
                     'opcodes.decode and the Disassembler are abstract in the model (tables fed from the real decoders); '
@@ -365,8 +408,11 @@ def run(chk):
         'step (3)/(5) use snaskool.Disassembly; the model assumes its entry cache is transparent and takes per-address facts '
         '(length, referenced address, 5-digit JR/JP target) from the real Disassembler (checked by correspondence)',
         'interpretation: when the image\'s own last instruction straddles END, the overlap warning AT END from sna2skool (and the '
-        'resulting skool2bin relocation) is inherent to the image and not counted; an empty range (start >= end) and map files '
-        'rejected with CodeMapError/SkoolKitError claim nothing; for code maps that are arbitrary address sets (not traces) only '
+        'resulting skool2bin relocation) is inherent to the image and not counted - unless, under -r, X is the argument byte of an '
+        'RST 8 at X-1 in the same block (sna2ctl must then have written the B sub-block; violation key '
+        'overlap-warning:rst-argument-at-end-decoded-as-code); an empty range (start >= end) and inputs rejected with '
+        'SkoolKitError claim nothing, and so does a CodeMapError for an EMPTY map file, but a CodeMapError for a non-empty '
+        'well-formed map written by this harness is a violation (valid-code-map-rejected); for code maps that are arbitrary address sets (not traces) only '
         'termination, tiling and the classified known overlap classes are reported: unclassified overlap warnings and "executed '
         'address not in a code block" there are counted in the distribution, not as violations',
         'known findings (heuristic limits, KNOWN_FINDINGS.txt): nomap:overlap-warning:code-after-text, '
